@@ -384,7 +384,7 @@ class CoerceArguments(Contract):
     key = 'tartiflette/coercers/arguments.py::coerce_arguments'
     property_ids = ('C05', 'C08')
     params = ['argument_definitions', 'node', 'variable_values', 'ctx', 'coercer']
-    timeout_ms = 15000
+    timeout_ms = 30000
 
     def args(self, en, names):
         self.A = super().args(en, names)
